@@ -390,13 +390,10 @@ class Shrinker:
     def __init__(self, d, known_open, budget=300):
         self.d, self.known_open, self.budget, self.evals = d, known_open, budget, 0
 
-    def eval_script(self, wal, ops, mut, category):
-        """Returns the raw case text when (ops, mut) still fails in the same way, else None."""
-        if self.evals >= self.budget:
-            return None
-        self.evals += 1
+    def run_script(self, lines):
+        """Performs a script on the real WAL; returns the case text or None."""
         sp = self.d / "shrink.script"
-        sp.write_text("\n".join([wal] + [" ".join(o) for o in ops] + [mut]) + "\n")
+        sp.write_text("\n".join(lines) + "\n")
         cp = self.d / "shrink.cases"
         rc, out = lib.sh("%s script %s %s" % (lib.BUILD / H, sp, cp), cwd=self.d, timeout=120,
                          extra_env={"VERIF_SCRATCH_ROOT": str(self.d)})
@@ -404,6 +401,16 @@ class Shrinker:
             return None
         text = cp.read_text()
         if "INVALID" in text:
+            return None
+        return text
+
+    def eval_script(self, wal, ops, mut, category):
+        """Returns the raw case text when (ops, mut) still fails in the same way, else None."""
+        if self.evals >= self.budget:
+            return None
+        self.evals += 1
+        text = self.run_script([wal] + [" ".join(o) for o in ops] + [mut])
+        if text is None:
             return None
         impl, model, oracle, err = run_wal_cases(self.d, text, "shrinkrun", timeout=300, jobs=1)
         if err:
@@ -482,12 +489,27 @@ def minimal_text(block_hdr, case):
 def report_wal_failure(ctx, d, blocks, key, category, why, impl, model, oracle, known_open):
     cid = key.split()[1]
     if key.startswith("D "):
-        # the writer model does not reproduce the directory the real code wrote
+        # the writer model does not reproduce the directory the real code wrote: re-run the
+        # script itself (shortest prefix of the operations that still disagrees)
         for hdr, cases in blocks:
             if any(l.startswith("DIR %s " % cid) for l in hdr):
+                blk = Block(hdr)
+                ops = [" ".join(o) for o in blk.real_ops()]
+                sh = Shrinker(d, known_open)
+                for k in range(0, len(ops) + 1):
+                    text = sh.run_script([hdr[0]] + ops[:k] + ["MUT READ 0 0"])
+                    if text is None:
+                        continue
+                    i2, m2, o2, err = run_wal_cases(d, text, "wfinal", timeout=300, jobs=1)
+                    f = [] if err else failing(i2, m2, o2, known_open)
+                    if f:
+                        k2 = f[0][0]
+                        return lib.violation(PID, dict(
+                            kind="wal-writer", why="the directory written by the real Create/Save/SaveSnapshot/cut (or its read-back) differs from the writer model (w_run/w_files)",
+                            script=[hdr[0]] + ops[:k], mutation="MUT READ 0 0", key=k2, impl=i2.get(k2), model=m2.get(k2), cases=text))
                 keep = [l for l in hdr if l.split()[0] in ("WAL", "OPSAVE", "OPSNAP", "OPCUT") or l.split()[1] == cid]
                 obj = dict(kind="wal-writer", why="the directory written by the real Create/Save/SaveSnapshot/cut differs from the writer model (w_run/w_files)",
-                           dir=cid, impl=impl.get(key), model=model.get(key), cases="\n".join(keep) + "\n")
+                           dir=cid, impl=impl.get(key), model=model.get(key), script=[hdr[0]] + ops, mutation="MUT READ 0 0", cases="\n".join(keep) + "\n")
                 return lib.violation(PID, obj)
         return lib.violation(PID, dict(kind="wal-writer", dir=cid, impl=impl.get(key), model=model.get(key)))
     for hdr, cases in blocks:
@@ -646,8 +668,18 @@ def do_replay(ctx, known_open):
     r = json.load(open(ctx.replay))
     d = lib.scratch("c16-replay-")
     kind = r.get("kind")
-    if kind in ("wal", "wal-writer") and r.get("cases"):
-        impl, model, oracle, err = run_wal_cases(d, r["cases"], "replay", timeout=600, jobs=1)
+    if kind in ("wal", "wal-writer") and (r.get("cases") or r.get("script")):
+        text = r.get("cases")
+        if r.get("script") and r.get("mutation"):
+            # perform the stored script on the current WAL code (the stored bytes are what the
+            # code wrote when the replay was recorded)
+            t2 = Shrinker(d, known_open).run_script(list(r["script"]) + [r["mutation"]])
+            if t2 is not None:
+                text = t2
+            elif kind == "wal-writer" or not text:
+                print("the stored script no longer applies to the layout the current code writes")
+                return 1
+        impl, model, oracle, err = run_wal_cases(d, text, "replay", timeout=600, jobs=1)
         if err:
             print("replay failed to run:", err)
             return 1
